@@ -1805,10 +1805,20 @@ def explore(harness, ctx=None, name=None, workers=None, max_paths=2000000,
     ctxmp = mp.get_context('fork')
     with ctxmp.Pool(workers) as pool:
         inflight = []
+        first_pids = {p_.pid for p_ in pool._pool}
+        last_alive_check = time.time()
         while pending or inflight:
             if total >= max_paths or time.time() - t0 > wall_limit_s:
                 exp.complete = False
                 break
+            if time.time() - last_alive_check > 1.0:
+                # a worker that died (solver abort, out of memory) takes its task with it and the pool
+                # silently replaces it: the exploration can no longer be complete
+                last_alive_check = time.time()
+                if first_pids - {p_.pid for p_ in pool._pool}:
+                    exp.complete = False
+                    exp.notes.append({'t': 'worker_died', 'v': 'a worker process of %s ended abnormally (solver abort?); its paths are lost' % name})
+                    break
             # submit
             while pending and len(inflight) < workers * 2:
                 if len(pending) < workers * 2:
